@@ -39,6 +39,7 @@ def run(ctx):
     r3_envelope(chk, fx)
     r4_installed_reader(chk, fx)
     r5_installed_statement(chk, fx)
+    r6_term_name_is_family(chk, fx)
 
 
 def r1_compare(chk, fx):
@@ -561,3 +562,40 @@ def r5_installed_statement(chk, fx):
                      detail=None if ok else "a statement the agent installed itself vanishes from the installed state: it is never deleted once "
                      "unmanaged, and updates are computed against nothing")
     chk.floor("C01/R5 post-loop Ok paths with the reject flag set", n, 1)
+
+
+# ---------------------------------------------------------------------------------------------
+def r6_term_name_is_family(chk, fx):
+    """The agent writes each family's ranges into the term named after the family (R2a) and addresses its deletes to that term.  Reading
+    the installed state back, a term is taken for "the inet term" only if it *is* it: its name equals its <family>.  A reader that
+    goes by the family alone takes a foreign term's ranges for its own — deletes then go to a term that does not hold them, and the
+    agent's own term can end up accepting without a route-filter.  Decided on the Ok paths of Term::borrowed_read_xml: each assumed
+    the stored name equal to the family read from <from>."""
+    from vlib import absint as A
+    name = None
+    for n in fx.thir:
+        if n.endswith("::borrowed_read_xml") and "policies::fetch::Term<" in n:
+            name = n
+    if name is None:
+        raise F.AnchorLost("Term::borrowed_read_xml not found")
+    chk.analysed(name)
+    paths = A.Interp(fx, crates=(AGENT,), max_paths=8000, no_inline=("TermFrom",)).explore(name)
+    n_ok = 0
+    for p in paths:
+        if p.end in ("iter-end", "abort") or not (A.is_res(p.ret) and p.ret[2] == "Ok"):
+            continue
+        n_ok += 1
+        eq = None
+        for k, v in p.assume.items():
+            # a comparison between the family held by one loop-carried value (the parsed <from>) and another loop-carried value (the
+            # text of <name>), whatever the variables are called
+            import re as _re
+            if isinstance(v, bool) and ".family" in k and len(set(_re.findall(r"«loop:(\w+)»", k))) >= 2:
+                if k.startswith("PartialEq::eq("):
+                    eq = v
+                elif k.startswith("PartialEq::ne("):
+                    eq = not v
+        chk.instance("C01/R6", "an installed term is accepted only if its <name> equals its <family>", name, loc_of(fx.thir[name].get("sp")), holds=eq is True,
+                     key="C01/R6 Term::borrowed_read_xml name-family-agreement",
+                     detail=None if eq is True else "the Ok path does not compare the term's name with its family")
+    chk.floor("C01/R6 Ok paths of the term reader", n_ok, 1)
